@@ -289,6 +289,9 @@ class NDNApp:
 
         async def starting_task():
             for name, route, validator, need_raw_packet, need_sig_ptrs in self._autoreg_routes:
+                if not self.face.running:
+                    # The connection is gone; the remaining routes are registered on the next connection
+                    break
                 await self.register(name, route, validator, need_raw_packet, need_sig_ptrs)
             if after_start:
                 try:
